@@ -141,6 +141,9 @@ func init() {
 			ruleDecoderBounds(c, r, "")
 			ruleByteAtGuards(c, r, "")
 			ruleValidDictCap(c, r, "")
+			// "every stream the library writes": a nil result of Write/Close means the bytes were delivered
+			wcone := c.Cone(nonNilFns(c.Func("lzma", "Writer.Write"), c.Func("lzma", "Writer.Close"), c.Func("lzma", "WriterConfig.NewWriter"))...)
+			ruleIO(c, r, wcone, "", true)
 		},
 	})
 }
